@@ -135,8 +135,9 @@ def chain_levels(idx):
 # Branch-ending family: an if-chain inside a loop where EVERY branch independently ends in nothing / break /
 # continue / return (so that e.g. all branches before the else leave the chain by a jump of their own).
 
-ENDINGS = ('none', 'break', 'continue', 'return')
-BE_LOOPS = ('while', 'for', 'forc')
+ENDINGS = ('none', 'break', 'continue', 'return', 'empty', 'comment-only')
+BE_LOOPS = ('while', 'for', 'forc', 'while1', 'while1r')
+BE_CONDS = ('cc', '1', '0')
 BE_SHAPES = (('if', 1, False), ('ifelse', 1, True), ('ifelif', 2, False), ('ifelifelse', 2, True))
 BE_SCOPES = ('global', 'func')
 BE_WRAPS = ('plain', 'in-if', 'after-sibling-loop')
@@ -150,7 +151,11 @@ def branch_end_specs():
             for ends in itertools.product(range(len(ENDINGS)), repeat=nb):
                 for scope in BE_SCOPES:
                     for wrap in BE_WRAPS:
-                        out.append({'loop': loop, 'shape': shape, 'ends': list(ends), 'scope': scope, 'wrap': wrap})
+                        out.append({'loop': loop, 'shape': shape, 'ends': list(ends), 'scope': scope, 'wrap': wrap, 'cond0': 'cc'})
+            # literal first conditions (a parser may be tempted to special-case them): plain surroundings only
+            for ends in itertools.product(range(4), repeat=nb):
+                for cond0 in BE_CONDS[1:]:
+                    out.append({'loop': loop, 'shape': shape, 'ends': list(ends), 'scope': 'global', 'wrap': 'plain', 'cond0': cond0})
     return out
 
 
@@ -170,16 +175,35 @@ def build_branch_end(spec):
             return [('return', ('str', 'ret'))]
         return []
 
+    def branch(e):
+        kind = ENDINGS[e]
+        if kind == 'empty':
+            return []
+        if kind == 'comment-only':
+            return [('comment', 'nothing to do')]
+        return [log()] + ending(e)
+
     shape, nconds, has_else = next(x for x in BE_SHAPES if x[0] == spec['shape'])
     ends = spec['ends']
-    pairs = [(CC, [log()] + ending(ends[j])) for j in range(nconds)]
-    else_body = ([log()] + ending(ends[nconds])) if has_else else None
+    cond0 = {'cc': CC, '1': ('num', 1), '0': ('num', 0)}[spec.get('cond0', 'cc')]
+    pairs = [(cond0 if j == 0 else CC, branch(ends[j])) for j in range(nconds)]
+    else_body = branch(ends[nconds]) if has_else else None
     chain = ('if', pairs, else_body)
     inner = [log(), chain, log()]
     if spec['wrap'] == 'in-if':
         inner = [log(), ('if', [(('not', CC), inner)], [log()]), log()]
     if spec['loop'] == 'while':
         loop = [('while', CC, inner)]
+    elif spec['loop'] == 'while1r':
+        # a literal loop condition and NO break bound to this loop unless a branch ending supplies one: left by return
+        loop = [('assign', 'n1', ('num', 0)),
+                ('while', ('num', 1), [('assign', 'n1', ('bin', '+', ('var', 'n1'), ('num', 1))),
+                                       ('if', [(('bin', '<', ('num', 2), ('var', 'n1')), [('return', ('str', 'out'))])], None)] + inner)]
+    elif spec['loop'] == 'while1':
+        # a literal loop condition; the body counts its rounds and leaves by break
+        loop = [('assign', 'n1', ('num', 0)),
+                ('while', ('num', 1), [('assign', 'n1', ('bin', '+', ('var', 'n1'), ('num', 1))),
+                                       ('if', [(('bin', '<', ('num', 2), ('var', 'n1')), [('break',)])], None)] + inner)]
     elif spec['loop'] == 'for':
         loop = [('for', 'v', 'i', ('call', 'pk', []), inner)]
     else:
